@@ -292,6 +292,48 @@ def sc_annot_ensemble(d, n, A, K, encs, voting):
     d.witness(any(k >= 0 for row in idx for k in row), "some_labeled")
 
 
+# ---------------------------------------------------------------- SklearnClassifier / MixtureModelClassifier across encodings
+def sc_classifiers(d, kind, n, K, encs, cost):
+    """kind 'sklearn': SklearnClassifier around a stub scikit-learn estimator (concrete replay: GaussianNB);
+    kind 'mixture': MixtureModelClassifier around the stub mixture model of C11"""
+    from harness import C11
+    idx = [d.choose(f"label{i}", [-1] + list(range(K))) for i in range(n)]
+    X = d.arr([[float(i)] for i in range(n)], shape=(n, 1))
+    Xq = d.arr([[float(d.choose("query_row", [0, 5]))]], shape=(1, 1))
+    seed = d.integer("seed", 0, 2 ** 31 - 2)
+    C = [[0.0 if a == b else float(1 + ((2 * a + b) % 3)) for b in range(K)] for a in range(K)] if cost else None
+    res = []
+    mix = C11._stub_mixture(d, 2) if kind == "mixture" else None      # one mixture model (one responsibility table) for all encodings
+    for enc in encs:
+        e = ENC[enc]
+        if kind == "sklearn":
+            from skactiveml.classifier import SklearnClassifier
+            if d.sym:
+                est = C11.make_stub_estimator()()
+            else:
+                from sklearn.naive_bayes import GaussianNB
+                est = GaussianNB()
+            clf = SklearnClassifier(est, classes=e["classes"][:K], missing_label=e["missing"], cost_matrix=C, random_state=seed)
+        else:
+            from skactiveml.classifier import MixtureModelClassifier
+            clf = MixtureModelClassifier(mixture_model=mix, classes=e["classes"][:K], missing_label=e["missing"],
+                                         cost_matrix=C, random_state=seed)
+        try:
+            clf.fit(X, encode(d, idx, enc))
+            res.append((clf.predict_proba(Xq), clf.predict(Xq)))
+        except (core.Unencodable, core.PathAbort):
+            raise
+        except Exception as ex:
+            d.prove(False, "fit_predict_succeed_under_every_encoding", info=dict(encoding=enc, error=repr(ex)[:160]))
+            return
+    for enc, (Pq, pr) in zip(encs[1:], res[1:]):
+        d.prove(d.eq_arr(Pq, res[0][0], 1e-9), "same_probabilities_under_every_encoding", info=dict(encoding=enc))
+        a0 = class_index(d.flat(res[0][1])[0], encs[0], K)
+        a1 = class_index(d.flat(pr)[0], enc, K)
+        d.prove(a0 is not None and a0 == a1, "predictions_are_reencoded_originals", info=dict(encoding=enc, first=a0, other=a1))
+    d.witness(any(k >= 0 for k in idx), "some_labeled")
+
+
 # ---------------------------------------------------------------- EER sample concatenation
 def sc_eer_concat(d, n, K, enc, with_eval):
     P = pl.pool()
@@ -396,6 +438,16 @@ HARNESSES = [
                   "skactiveml.base:SkactivemlClassifier._validate_data", "skactiveml.base:SkactivemlClassifier.predict",
                   "skactiveml.utils._aggregation:compute_vote_vectors"],
                  required_witnesses=("some_labeled",), product_abstraction=True, timeout_ms=30000),
+    dual_harness("classifiers_under_encodings", sc_classifiers,
+                 lambda tier: [dict(kind=k, n=2, K=K, encs=e, cost=cm) for k in ("sklearn", "mixture") for K in (2, 3)
+                               for cm in (False, True) for e in ([PAIRS_Q[0]] if tier == "quick" else PAIRS_Q)
+                               if tier != "quick" or (K, cm) in ((2, False), (3, True))],
+                 ["skactiveml.classifier._wrapper:SklearnClassifier._fit", "skactiveml.classifier._wrapper:SklearnClassifier.predict_proba",
+                  "skactiveml.classifier._wrapper:SklearnClassifier.predict",
+                  "skactiveml.classifier._mixture_model_classifier:MixtureModelClassifier.fit",
+                  "skactiveml.classifier._mixture_model_classifier:MixtureModelClassifier.predict_freq",
+                  "skactiveml.base:SkactivemlClassifier._validate_data", "skactiveml.base:SkactivemlClassifier.predict"],
+                 required_witnesses=("some_labeled",), timeout_ms=30000),
     dual_harness("eer_concatenate_samples", sc_eer_concat,
                  lambda tier: [dict(n=2, K=2, enc=e, with_eval=w) for e in ENC for w in (False, True)], UNITS[8:10] + UNITS[16:17],
                  required_witnesses=("ran",)),
